@@ -46,6 +46,7 @@ type l16 struct {
 	aimChain string
 	aimN     int
 	aimSvc   string // a service of aimChain the aimed probes prefer
+	hub      bool   // the other BitXHub is registered: some probes arrive from it
 	script   []func() (pb.Transaction, string, []string)
 }
 
@@ -118,6 +119,21 @@ func (l *l16) scriptCascadeOverLoggedOutService(chain string) {
 		}, l.scriptApprove(0, chain, chain), l.scriptApprove(1, chain, chain), l.scriptApprove(2, chain, chain),
 		func() (pb.Transaction, string, []string) {
 			l.aimChain, l.aimN, l.aimSvc = chain, 8, s1
+			return nil, "", nil
+		})
+}
+
+// scriptLogoutWhileFreezePending: a freeze of the appchain is proposed and left undecided, then the chain's
+// admin asks for its logout and that is approved: the chain is gone and so are its services.
+func (l *l16) scriptLogoutWhileFreezePending(chain string) {
+	w := l.world
+	l.script = append(l.script, func() (pb.Transaction, string, []string) {
+		return w.BVM(harness.AdminKey(0), harness.AddrAppchain, "FreezeAppchain", pb.String(chain), pb.String("r")), "FreezeAppchain " + chain + " (scripted, left undecided)", []string{chain}
+	}, func() (pb.Transaction, string, []string) {
+		return w.BVM(harness.ChainAdmin(chain), harness.AddrAppchain, "LogoutAppchain", pb.String(chain), pb.String("r")), "LogoutAppchain " + chain + " (scripted, freeze pending)", []string{chain}
+	}, l.scriptApprove(0, chain, chain), l.scriptApprove(1, chain, chain), l.scriptApprove(2, chain, chain),
+		func() (pb.Transaction, string, []string) {
+			l.aimChain, l.aimN, l.aimSvc = chain, 8, ""
 			return nil, "", nil
 		})
 }
@@ -345,8 +361,14 @@ func (l *l16) probe() {
 	if strings.Split(src, ":")[0] == strings.Split(dst, ":")[0] {
 		return
 	}
+	// one probe in seven arrives from the other (registered) BitXHub, with a proof its validators signed: the
+	// source cannot be gated here, the local destination is gated like for any other request
+	remote := l.hub && r.Intn(7) == 0
 	stOf := func(s string) string { return l.query(lcObj{class: "service", id: s}) }
 	srcSt, dstSt := stOf(src), stOf(dst)
+	if remote {
+		src, srcSt = "cX:sY", "available"
+	}
 	// blacklist of the destination
 	blocked := false
 	if dstSt != model.LcNone {
@@ -358,8 +380,15 @@ func (l *l16) probe() {
 		_, blocked = s.Permission[harness.BxhID+":"+src]
 	}
 	from, to := harness.BxhID+":"+src, harness.BxhID+":"+dst
+	if remote {
+		from = hubID + ":" + src
+	}
 	idx := l.req[from+"|"+to] + 1
-	tx := w.IBTPTx(harness.User(0), harness.MkIBTP(from, to, idx, pb.IBTP_INTERCHAIN, 0), []byte{1, 0x70})
+	var tx pb.Transaction = w.IBTPTx(harness.User(0), harness.MkIBTP(from, to, idx, pb.IBTP_INTERCHAIN, 0), []byte{1, 0x70})
+	if remote {
+		tx = interHubRequestTx(w, harness.User(0), from, to, idx)
+		l.w.Count("probes_from_the_other_bitxhub", 1)
+	}
 	res, err := w.Exec(tx)
 	if err != nil {
 		l.viol("exec:error", err.Error())
@@ -392,7 +421,7 @@ func (l *l16) probe() {
 			}
 		}
 	}
-	if srcSt != model.LcNone {
+	if srcSt != model.LcNone && !remote {
 		switch cst := l.query(lcObj{class: "appchain", id: strings.Split(src, ":")[0]}); cst {
 		case "frozen", "forbidden":
 			sg = "block"
@@ -512,6 +541,9 @@ func lc16Case(w *vlog.W, a *wargs, id int, rng *rand.Rand, opts harness.Options)
 		l.objs = append(l.objs, lcObj{"role", harness.DetKey(fmt.Sprintf("candidate-admin-%d", i)).Addr.String(), ""},
 			lcObj{"node", harness.DetKey(fmt.Sprintf("lc-node-%d", i)).Addr.String(), ""})
 	}
+	if err := registerHub(world); err == nil {
+		l.hub = true
+	}
 	l.observe(nil, world.R.Height())
 	switch sc, chain := rng.Intn(6), []string{harness.ChainA, harness.ChainB, harness.ChainC}[rng.Intn(3)]; sc {
 	case 0, 1:
@@ -523,6 +555,9 @@ func lc16Case(w *vlog.W, a *wargs, id int, rng *rand.Rand, opts harness.Options)
 	case 3:
 		l.scriptCascadeOverLoggedOutService(chain)
 		l.shape["scripted:cascade-over-logged-out-service"] = true
+	case 4:
+		l.scriptLogoutWhileFreezePending(chain)
+		l.shape["scripted:logout-while-freeze-pending"] = true
 	}
 	for s := 0; s < 70; s++ {
 		if rng.Intn(12) == 0 { // restart: cached and stored service records must give the same gate
